@@ -105,8 +105,33 @@ def slice_mean(ctx: Ctx):
     ci = ctx.repo.cls(MM, "_ScaleMean")
     m = ctx.repo.lookup(ci, "_weighted_mean")
     body = SUMMARIZER.summarize(m.node)
-    v, cnf, snf, _ = equal(body, "np.nansum(values * proportions) / np.sum(proportions[~np.isnan(values)])")
-    ctx.ob("slice-mean", f"{MM}::_ScaleMean._weighted_mean", cnf, snf, v, "weighted mean of the numeric values by the proportions, renormalised over numeric-valued categories")
+    NUM, DEN = "np.nansum(values * proportions)", "np.sum(proportions[~np.isnan(values)])"
+    paths = strip_ifexp_paths(body)
+    if len(paths) <= 1:
+        v, cnf, snf, _ = equal(body, f"{NUM} / {DEN}")
+        ctx.ob("slice-mean", f"{MM}::_ScaleMean._weighted_mean", cnf, snf, v, "weighted mean of the numeric values by the proportions, renormalised over numeric-valued categories")
+    else:
+        # path by path: the quotient, or - where the share of numeric-valued respondents is zero - NaN ("NaN for a vector
+        # without numeric-valued respondents"); a NUMBER on that path is a violation
+        for gs, leaf in paths:
+            where = f"{MM}::_ScaleMean._weighted_mean [{' and '.join(('' if p else 'not ') + '(' + u(g)[:40] + ')' for g, p in gs) or 'always'}]"
+            v, cnf, snf, _ = equal(leaf, f"{NUM} / {DEN}")
+            if v:
+                ctx.held("slice-mean", where, cnf, snf)
+                continue
+            zero_den = False
+            for g, pol in gs:
+                if pol and isinstance(g, ast.Compare) and len(g.ops) == 1 and isinstance(g.ops[0], (ast.Eq, ast.LtE)) and u(g.comparators[0]) in ("0", "0.0"):
+                    if equal(g.left, DEN)[0]:
+                        zero_den = True
+                if (not pol) and not isinstance(g, ast.Compare) and equal(g, DEN)[0]:
+                    zero_den = True  # `if not share:`
+            if zero_den:
+                is_nan = u(leaf) in ("np.nan", "float('nan')", "np.NaN", "math.nan")
+                ctx.ob("slice-mean.no-valued-respondents", where, u(leaf)[:80], "np.nan", is_nan,
+                       "a vector whose respondents all fall in categories without a numeric value has NO scale mean (NaN), not 0")
+            else:
+                ctx.undecided("slice-mean", where, cnf, snf)
     e = expand(ctx.repo, ci, "blocks", stop=lambda mm: mm.name in ("is_defined", "_proportions", "_opposing_numeric_values", "_apply_along_orientation"))
     leaf = main_leaf(e)
     ctx.check_expr("slice-mean", f"{MM}::_ScaleMean.blocks", leaf, "[self._apply_along_orientation(self._weighted_mean, proportion, values=self._opposing_numeric_values) for proportion in self._proportions]")
